@@ -31,6 +31,11 @@ void inst(rgb8_view_t const& a, rgb8_view_t const& b, gray16_view_t const& c, gr
   resize_view(a, b, bilinear_sampler()); resample_subimage(a, b, 0., 0., 4., 4., 0.1, nearest_neighbor_sampler());
   matrix3x2<double> i = inverse(m); point<double> q = p * i; q = transform(m, q); (void)q;
 }
+// signed destination channels: the accumulator can be negative
+void inst_signed(gray8s_view_t const& a, rgb16s_view_t const& b){
+  gray8s_pixel_t r; rgb16s_pixel_t g; point<double> p(1.5, 2.5);
+  sample(bilinear_sampler(), a, p, r); sample(bilinear_sampler(), b, p, g);
+}
 '''
 W = "include/boost/gil/extension/numeric/"
 
@@ -99,9 +104,16 @@ def narrowing(rep, fns):
                 break
             expr = R.key(n).replace("$0", "SRC")
             break
-        ROUND = (r"\(\(SRC < 0(\.0)?\) \? \(SRC - 0\.5\) : \(SRC \+ 0\.5\)\)", r"\(SRC \+ 0\.5\)", r"l?l?round\(SRC\)", r"(nearbyint|rint)\(SRC\)", r"floor\(\(SRC \+ 0\.5\)\)")
+        ROUND = (r"\(\(SRC < 0(\.0)?\) \? \(SRC - 0\.5\) : \(SRC \+ 0\.5\)\)", r"l?l?round\(SRC\)", r"(nearbyint|rint)\(SRC\)", r"floor\(\(SRC \+ 0\.5\)\)")
+        HALF_UP = r"\(SRC \+ 0\.5\)"          # followed by the truncating conversion: nearest only for SRC >= 0
+        signed_dst = re.search(r"\bunsigned\b", dt) is None
         if expr is not None and any(re.fullmatch(p_, expr) for p_ in ROUND):
             rep.ok("B4-narrowing", key, expr)
+        elif expr is not None and re.fullmatch(HALF_UP, expr) and not signed_dst:
+            rep.ok("B4-narrowing", key, expr + " (unsigned destination: the accumulator is never negative)")
+        elif expr is not None and re.fullmatch(HALF_UP, expr):
+            rep.violation("B4-narrowing", key, R.fn_where(f), {"conversion": "dst = value_type(accumulator + 0.5): the conversion truncates towards zero, so this rounds to nearest only for non-negative values",
+                          "witness": {"accumulator": -3.0, "stored": -2, "nearest": -3}, "consequence": "a constant image of a negative value is not reproduced; the value at integer coordinates is not the source pixel"})
         elif expr == "SRC":
             # witness from the weights B1 establishes: two taps with weights (1-f) and f on a constant image
             wit = None
